@@ -104,7 +104,7 @@ def membership_rule(ctx, F, R="R-TABLE"):
            what="write_string no longer escapes '(' that are never closed")
 
 
-def run(ctx):
+def _run(ctx):
     F = ctx.facts("default")
     lexrules.check_names(ctx, F)
     lexrules.check_strings(ctx, F, cr_required=False)
@@ -116,3 +116,13 @@ def run(ctx):
     stream_rule(ctx, F)
     ctx.floor("R-TABLE", "C01 obligations", len(ctx.obligations), 40)
     ctx.extra["exhaustive_over"] = "256 byte values for every byte-class obligation"
+
+
+def run(ctx):
+    _run(ctx)
+    import readerrules
+    readerrules.last_marker(ctx, ctx.facts("default"))
+    # the cross-reference sections the writer builds must describe the objects they list (C03's rule): a reader that trusts them
+    # (a second save/load cycle goes through xref.size and the section keys) otherwise loses or mislabels objects
+    import prop_c03
+    prop_c03.section_building(ctx, ctx.facts("default"))
